@@ -156,7 +156,7 @@ def _popleft(eng, st, self_v, args, kwargs, node):
 
 
 c = S.ext("multiprocessing.util.is_exiting", cite="util.is_exiting(): whether the interpreter is shutting down")
-c.returns(T.Bool).modifies()
+c.returns(T.Bool).event("is_exiting", "result").modifies()
 S.ext_consts["multiprocessing.queues._sentinel"] = __import__("pyvc.values", fromlist=["VConst"]).VConst("multiprocessing.queues._sentinel")
 
 c = M.contract("Queue._feed", props=["C04", "C15"])
@@ -166,6 +166,11 @@ c.param("onerror", T.FnT).param("queue_sem", T.Ref("MPLock"))
 c.requires("callables-given", "send_bytes is not None and close is not None and onerror is not None and writelock is not queue_sem and "
            "close is not onerror and send_bytes is not onerror and close is not send_bytes")
 c.at_call("loky.backend.reduction:dumps", "serialises-with-the-reducers-it-was-given", "arg_reducers is reducers", prop="C15")
+# C04: a task that cannot be pickled fails its own future, whatever the exception: the feeder thread may end silently on a broken pipe *of the send* (the
+# readers are gone) but never because pickling the object raised something that looks like one (errno == EPIPE); only an exiting interpreter excuses it
+c.ensures("feed/a-pickling-error-never-ends-the-feeder-silently",
+          "tail(implies(log_count('raise:dumps') >= 1, exists_event('is_exiting', lambda r: r)))", prop="C04")
+c.replay_for("feed/a-pickling-error-never-ends-the-feeder-silently", "feeder_swallows", exc="'EPIPE'")
 c.raises("feed/only-what-the-error-callback-raises", "BaseException")
 c.replay_for("error-path", "feeder_swallows")
 c.modifies("G.sem_released")
@@ -185,6 +190,7 @@ io.iter_post("error-path/a-failed-send-is-always-reported",
 io.iter_post("error-path/write-lock-released", "not held(writelock)", prop="C04")
 ii = M.invariant("Queue._feed", 1, "while True:")
 ii.inv("write-lock-free-between-objects", "not held(writelock)")
+ii.inv("not-marked-as-sending-between-objects", "not local_or('sending', False)")
 ii.inv("descriptor-marks-untouched", "G.fd_inheritable == old(G.fd_inheritable) and seq(as_(G.spawning_popen, 'Popen')._fds) == old(seq(as_(G.spawning_popen, 'Popen')._fds))")
 ii.iter_post("one-object-one-pickle-one-send",
              "log_count('popleft') == 1 and log_count('call:dumps') == 1 and log_arg('call:dumps', 0, 1) is log_arg('popleft', 0, 1) and "
